@@ -60,6 +60,10 @@ type FuncCtx struct {
 	joinPCs    []map[string]bool
 	joinCache  map[string]Term
 	joinPtrs   map[string]*LazyCell
+	mapHasSyms map[string]Term
+	curSite    string
+	siteSeq    int
+	siteSyms   map[string]Term
 }
 
 type CutInfo struct {
@@ -110,6 +114,26 @@ type discoverCtx struct {
 }
 
 func (fx *FuncCtx) FreshSym(hint string, so Sort) Term {
+	if fx.curSite != "" {
+		// symbols created while executing an instruction are named after (instruction, occurrence on
+		// the path, sequence): different paths executing the same instruction share them, so facts
+		// about them survive a join.
+		fx.siteSeq++
+		key := fmt.Sprintf("%s/%d/%s", fx.curSite, fx.siteSeq, so)
+		if fx.siteSyms == nil {
+			fx.siteSyms = map[string]Term{}
+		}
+		if t, ok := fx.siteSyms[key]; ok {
+			return t
+		}
+		fx.symID++
+		name := sanitize(hint) + "!" + fmt.Sprint(fx.symID)
+		fx.decls[name] = so
+		fx.declOrd = append(fx.declOrd, name)
+		t := Sym(name, so)
+		fx.siteSyms[key] = t
+		return t
+	}
 	fx.symID++
 	name := sanitize(hint) + "!" + fmt.Sprint(fx.symID)
 	fx.decls[name] = so
@@ -526,7 +550,15 @@ func (fx *FuncCtx) run(st *State, onReturn func(st *State, results []Value)) []*
 			fx.endPath(st)
 			return nil
 		default:
+			if st.allocN == nil {
+				st.allocN = map[ssa.Instruction]int{}
+			}
+			occ := st.allocN[in]
+			st.allocN[in] = occ + 1
+			fx.curSite = fmt.Sprintf("%p/%d/%d", in, len(st.stack), occ)
+			fx.siteSeq = 0
 			forks, ended := fx.step(st, in)
+			fx.curSite = ""
 			if ended {
 				return forks
 			}
@@ -846,9 +878,11 @@ func (st *State) siteObject(in ssa.Instruction, t types.Type, name string) *Obje
 	if st.allocN == nil {
 		st.allocN = map[ssa.Instruction]int{}
 	}
-	n := st.allocN[in]
-	st.allocN[in] = n + 1
-	key := fmt.Sprintf("%p/%d/%d/%s", in, len(st.stack), n, name)
+	fx.siteSeq++
+	key := fmt.Sprintf("%s/obj%d/%s", fx.curSite, fx.siteSeq, name)
+	if fx.curSite == "" {
+		return fx.newObject(t, name)
+	}
 	if fx.siteObjs == nil {
 		fx.siteObjs = map[string]*Object{}
 	}
